@@ -326,10 +326,13 @@ impl Report {
                                 let again = std::panic::catch_unwind(std::panic::AssertUnwindSafe(|| c.run(false)));
                                 match again {
                                     Ok(r2) if r2.violations == r.violations => {},
-                                    _ => r.machinery_error(format!(
-                                        "case {} did not fail identically when rerun (harness nondeterminism)",
-                                        c.key()
-                                    )),
+                                    _ => {
+                                        // the subject answered differently on an immediate rerun of the same case: the
+                                        // violation was observed on the real code and stays, annotated
+                                        for v in r.violations.iter_mut() {
+                                            v.1.push_str(" [not reproduced identically on an immediate rerun of the case: the result depends on process state left by other calls, or on timing]");
+                                        }
+                                    },
                                 }
                             }
                             r
